@@ -358,10 +358,13 @@ class Env(dict):
     the current source gives the local in the same position (see Executor.local_aliases): a contract written against `ancestors_list`
     keeps evaluating when the source renames it.  Only lookups of names that do not exist are redirected."""
     aliases = {}
+    hits = None   # set shared by all copies: the re-mapped names that were actually read
 
     def __missing__(self, k):
         a = self.aliases.get(k)
         if a is not None and dict.__contains__(self, a):
+            if self.hits is not None:
+                self.hits.add(k)
             return dict.__getitem__(self, a)
         raise KeyError(k)
 
@@ -370,12 +373,14 @@ class Env(dict):
             return dict.__getitem__(self, k)
         a = self.aliases.get(k)
         if a is not None and dict.__contains__(self, a):
+            if self.hits is not None:
+                self.hits.add(k)
             return dict.__getitem__(self, a)
         return default
 
     def __deepcopy__(self, memo):
         e = Env((k, copy.deepcopy(v, memo)) for k, v in self.items())
-        e.aliases = self.aliases
+        e.aliases, e.hits = self.aliases, self.hits
         return e
 
 
@@ -3002,7 +3007,7 @@ class Executor:
                 # renamed locals: the contract's names are re-mapped by position.  A proof found this way is a proof (invariants are
                 # obligations, never assumptions); a refutation is not trusted (run.py reports it as undecided)
                 st.env.aliases = aliases
-                info["locals_remapped"] = aliases
+                st.env.hits = self._alias_hits = getattr(self, "_alias_hits", set())
             self.bind_params(fdef.args, extra.get("positional", []) if extra else [], args, st.env, st)
             exc = contract.raises(self, st, args)
             any_exc = z3.Or(*exc.values()) if exc else z3.BoolVal(False)
@@ -3046,6 +3051,8 @@ class Executor:
                 else:
                     raise Unsupported(f"function ends with {o.kind}")
             info["variants"].append({"label": label, "paths": len(outs), "returns": n_ret})
+            if aliases and self._alias_hits:
+                info["locals_remapped"] = {k: aliases[k] for k in sorted(self._alias_hits) if k in aliases}
         return info
 
 
